@@ -42,8 +42,25 @@ def gen_loop(rng, lbs=(0,), steps=(1,), min_trips_stages=True):
     if two_loads:
         pre.append(f"    %bufx = memref.alloc() : {BUF}")
     emit(2, f"scf.for %i = %lb to %ub step %st {{")
-    emit(3, f"%in = memref.subview %A[%i, 0] [1, 8] [1, 1] : memref<16x8xi32> to {TILE}")
-    emit(3, f"%out = memref.subview %B[%i, 0] [1, 8] [1, 1] : memref<16x8xi32> to {TILE}")
+    # index computations: the tile index is the induction variable itself, or is computed from it (flattened 2-D traversal with
+    # row = i / K, col = i % K; input tile re-used every K iterations)
+    idx_in = idx_out = "%i"
+    mode = rng.random()
+    if mode < 0.35:
+        K = rng.choice([2, 3, 4])
+        emit(3, f"%cK = arith.constant {K} : index")
+        emit(3, "%col = arith.remui %i, %cK : index")
+        if rng.random() < 0.6:
+            emit(3, "%row = arith.divui %i, %cK : index")
+            emit(3, "%rowK = arith.muli %row, %cK : index")
+            emit(3, "%flat = arith.addi %rowK, %col : index")
+            idx_in = idx_out = "%flat"
+            if rng.random() < 0.3:
+                idx_in = "%col"
+        else:
+            idx_in = "%col"
+    emit(3, f"%in = memref.subview %A[{idx_in}, 0] [1, 8] [1, 1] : memref<16x8xi32> to {TILE}")
+    emit(3, f"%out = memref.subview %B[{idx_out}, 0] [1, 8] [1, 1] : memref<16x8xi32> to {TILE}")
     # stage 0: load; middle stages: compute or move; last stage: store
     if two_loads:
         emit(3, f"%in2 = memref.subview %C[%i, 0] [1, 8] [1, 1] : memref<16x8xi32> to {TILE}")
